@@ -57,6 +57,7 @@ func runOne(t *testing.T, c *Case, work, sched *choice.Source, out *wproto.Out, 
 	if id%41 == 0 {
 		out.Sample(map[string]any{"case": id, "what": st.Desc, "sched_steps": st.Steps, "preemptions": st.Preempt, "samples": st.Samples, "early_stopped_pixels": st.EarlyStops}, 10)
 	}
+	out.Remember(c)
 	out.Tick(64)
 }
 
